@@ -49,7 +49,7 @@ impl RequestOption {
     }
 
     pub fn get_mask(options: &[Self]) -> u8 {
-        options.iter().map(|x| *x as u8).reduce(|a, b| a | b).unwrap()
+        options.iter().fold(0, |mask, x| mask | *x as u8)
     }
 }
 
